@@ -349,3 +349,54 @@ def check_wfx(core, chk, b, cases, excuse, maxbuf=700, limit=10, found_so_far=Fa
                               no_input=not (found or found_so_far))
             found = True
     return res, found
+
+
+# ---------------------------------------------------------------- atoms tie (Model/ReAtoms.lean vs. hook H3)
+def is_literal_ast(t):
+    """yr_re_ast_extract_literal succeeds: a literal node or a concatenation of literal nodes (such strings take the text
+    path of atoms.c, property C01)"""
+    import re as _re
+    return _re.fullmatch(r"(l[0-9a-f]{2}|C\(|,|\))+", t) is not None
+
+
+def check_atoms(core, chk, cases, imap, found_so_far=False, limit=6):
+    """the atoms the Lean model of atoms.c extracts (driver `reatoms`) == the atoms the real compiler inserts into the
+    automaton (hook H3, h_scan atoms=1), as sets, for every non-literal unchained string"""
+    lines, want = [], {}
+    res = {"compared": 0, "literal_skipped": 0, "chained_skipped": 0, "mismatch": 0}
+    for c in cases:
+        cid = c.split(" ", 1)[0]
+        toks = dict(t.split("=", 1) for t in c.split()[1:] if "=" in t)
+        il = imap.get(cid, "")
+        if "mstr" in toks or toks.get("re", "?") == "?" or " OK " not in il:
+            continue
+        at = [t for t in il.split() if t.startswith("atoms=")]
+        if not at or at[0] == "atoms=-":
+            continue
+        if is_literal_ast(toks["re"]):
+            res["literal_skipped"] += 1
+            continue
+        ents = [e.split(":") for e in at[0][6:].split(",")]
+        if any(e[0] != "0" for e in ents):
+            res["chained_skipped"] += 1
+            continue
+        want[cid] = (c, sorted(set((e[1] or "-") for e in ents)), sorted(set(e[3] for e in ents)))
+        fl = "".join(ch for ch in toks.get("fl", "a") if ch in "awi")
+        lines.append("%s re=%s fl=%s" % (cid, toks["re"], fl))
+    out, _ = run_robust(core, [core.driver_path(), "reatoms"], lines, chunk_timeout=300, single_timeout=30)
+    bad = 0
+    for cid, (c, impl, bts) in want.items():
+        ml = out.get(cid)
+        if ml is None:
+            continue
+        t = ml.split()
+        model = sorted(t[2].split(",")) if len(t) >= 3 and t[1] == "A" else None
+        res["compared"] += 1
+        if model != impl or bts != ["0"]:
+            res["mismatch"] += 1
+            if bad < limit:
+                chk.violation("atoms_%s.json" % cid, {"kind": "atoms inserted into the automaton differ from the Lean model of atoms.c", "engine": "re",
+                                                     "harness": "h_scan", "case": c, "implementation": impl[:40], "model_spec": (model or [ml])[:40],
+                                                     "backtracks": bts}, no_input=True)
+            bad += 1
+    return res, bad > 0
